@@ -329,7 +329,7 @@ class GridFlow(WidgetWrap[Pile], WidgetContainerMixin, WidgetContainerListConten
         position -- index of child widget to be made focus
         """
         try:
-            if position < 0 or position >= len(self.contents):
+            if not isinstance(position, int) or position < 0 or position >= len(self.contents):
                 raise IndexError(f"No GridFlow child widget at position {position}")
         except TypeError as exc:
             raise IndexError(f"No GridFlow child widget at position {position}").with_traceback(
